@@ -389,7 +389,10 @@ class SeqLen:
                     if any(isinstance(x, ast.Name) and x.id == e.id for t in st.targets for x in ast.walk(t)):
                         bounds.append(0)
             if bounds:
-                return min(bounds)
+                lb = min(bounds)
+                if lb == 0 and use is not None:
+                    lb = max(lb, self._append_loop_len(fn, e.id, use))
+                return lb
             fn = fn.parent
         try:
             v = self.consts.eval_in(f, e)
@@ -490,6 +493,53 @@ class SeqLen:
         return 0
 
     # -- list(filter(lambda a: a.F != T, xs))[0] under an accept-set guard --------------------------
+
+    def _append_loop_len(self, fn: FuncInfo, name: str, use: ast.AST) -> int:
+        """`xs = []` followed by `for i in range(C): xs.append(..)` (one unconditional append per iteration, no break/continue/else,
+        nothing else ever touches xs), read after the loop: the loop either completed all len(range(C)) iterations or the
+        function was left by an exception, so the list has at least that many elements at the use."""
+        inits, loops, other = [], [], 0
+        for st in own_nodes(fn.node):
+            if isinstance(st, (ast.Assign, ast.AnnAssign)) and st.value is not None:
+                for t in st.targets if isinstance(st, ast.Assign) else [st.target]:
+                    if isinstance(t, ast.Name) and t.id == name:
+                        if isinstance(st.value, ast.List) and not st.value.elts:
+                            inits.append(st)
+                        else:
+                            other += 1
+                    elif any(isinstance(x, ast.Name) and x.id == name and isinstance(x.ctx, ast.Store) for x in ast.walk(t)):
+                        other += 1
+            elif isinstance(st, ast.Call) and isinstance(st.func, ast.Attribute) and isinstance(st.func.value, ast.Name) and st.func.value.id == name:
+                if st.func.attr != "append":
+                    other += 1
+            elif isinstance(st, (ast.AugAssign, ast.Delete, ast.NamedExpr)) and any(isinstance(x, ast.Name) and x.id == name and isinstance(x.ctx, (ast.Store, ast.Del)) for x in ast.walk(st)):
+                other += 1
+            elif isinstance(st, ast.For):
+                appends = [b for b in st.body if isinstance(b, ast.Expr) and isinstance(b.value, ast.Call) and isinstance(b.value.func, ast.Attribute) and b.value.func.attr == "append" and isinstance(b.value.func.value, ast.Name) and b.value.func.value.id == name]
+                if appends:
+                    loops.append((st, appends))
+        if len(inits) != 1 or len(loops) != 1 or other:
+            return 0
+        loop, appends = loops[0]
+        n_app = sum(1 for x in own_nodes(fn.node) if isinstance(x, ast.Call) and isinstance(x.func, ast.Attribute) and x.func.attr == "append" and isinstance(x.func.value, ast.Name) and x.func.value.id == name)
+        if len(appends) != 1 or n_app != 1 or loop.orelse or any(isinstance(x, (ast.Break, ast.Continue, ast.Return)) for b in loop.body for x in ast.walk(b)):
+            return 0
+        r = _range_values(loop.iter, self.consts, fn)
+        if r is None:
+            return 0
+        # the loop must be at the function's top level, or directly in the body of a top-level try (whose handlers, if they do
+        # not leave, would let a shorter list through)
+        par = _parent(loop)
+        if par is fn.node:
+            pass
+        elif isinstance(par, ast.Try) and _parent(par) is fn.node and loop in par.body and all(h.body and isinstance(h.body[-1], (ast.Raise, ast.Return)) for h in par.handlers):
+            pass
+        else:
+            return 0
+        if inits[0].lineno > loop.lineno or getattr(use, "lineno", 0) <= getattr(loop, "end_lineno", 10**9):
+            return 0
+        self.used[f"append-loop:{fn.qualname}:{name}"] = f"{name} is built by one append per iteration of range(..) ({len(r)} iterations) and read after the loop"
+        return len(r)
 
     def _nonempty_filter(self, f: FuncInfo, n: ast.Subscript) -> str | None:
         if not isinstance(n.value, ast.Name):
@@ -638,8 +688,16 @@ class SeqLen:
                     return None  # the guard is switched off
                 continue  # `not False`: no constraint
             if isinstance(inner, ast.BoolOp) and isinstance(inner.op, ast.Or):
-                # not (A or B) == not A and not B
+                # not (A or B) == not A and not B; a disjunct that folds to a constant is the switch (`not (FLAG or A1 or A2)`)
                 for alt in inner.values:
+                    try:
+                        av = self.consts.eval_in(f, alt)
+                    except Exception:
+                        av = TOP
+                    if av is not TOP and isinstance(av, bool):
+                        if av is True:
+                            return None  # the guard is switched off
+                        continue
                     alts.append(flat(alt))
                 continue
             alts.append(flat(inner))
